@@ -98,6 +98,7 @@ type AssertStat struct {
 	MaxMs     int64
 	TotalMs   int64
 	LastShape string
+	QuickHits int
 }
 
 type Exec struct {
@@ -121,6 +122,13 @@ type Exec struct {
 	lazyCache map[*ssa.BasicBlock]bool
 	allowInit func(string) bool
 	bootMaxObj int
+	asmCache   map[*ssa.Function]*asmFunc
+	opaqueMemo map[string][]*Term
+	RepoDir    string
+	Seed       int
+	quickModel map[*Term]*big.Int
+	tagSeen    map[string]bool
+	TagSyms    []SymRec
 	sprintfCount int
 	globalSet  map[int]bool
 
@@ -134,6 +142,7 @@ type Exec struct {
 	BigMode     string // "bv" (default) or "int"
 	BigWidth    int
 	invCount    int
+	IntConversions int
 	LazyAll     bool
 	LazyForks   int
 	Trace       bool
@@ -174,7 +183,7 @@ func NewExec(prog *ssa.Program, ctx *Ctx, solver *Solver) *Exec {
 		globals: map[*ssa.Global]int{}, initDone: map[*ssa.Package]bool{}, suspect: map[*ssa.Package]string{},
 		Models: map[string]ModelFn{}, fninfo: map[*ssa.Function]*fnInfo{}, pdoms: map[*ssa.Function]map[*ssa.BasicBlock]*ssa.BasicBlock{}, lazyCache: map[*ssa.BasicBlock]bool{},
 		MaxSteps: 50_000_000, MaxVisits: 200_000, MaxPaths: 200_000,
-		ReplaceByGo: map[string]string{}, axiomsAdded: map[string]bool{}, globalSet: map[int]bool{},
+		ReplaceByGo: map[string]string{}, axiomsAdded: map[string]bool{}, globalSet: map[int]bool{}, asmCache: map[*ssa.Function]*asmFunc{}, tagSeen: map[string]bool{}, opaqueMemo: map[string][]*Term{},
 	}
 	ex.nextObj = 1
 	ex.Boot = &State{Heap: map[int]*Object{}, SymCount: map[string]int{}, Lenient: true}
@@ -752,14 +761,22 @@ func (ex *Exec) recordViolation(s *State, id, msg string) {
 	}
 	// model
 	var want []*Term
-	for _, r := range s.Syms {
+	syms := append(append([]SymRec{}, s.Syms...), ex.TagSyms...)
+	for _, r := range syms {
 		want = append(want, r.Terms...)
 	}
-	res, model := ex.Solver.Check(s.PC, want)
+	var res Result
+	var model map[*Term]*big.Int
+	if ex.quickModel != nil {
+		res, model = Sat, ex.quickModel
+		ex.quickModel = nil
+	} else {
+		res, model = ex.Solver.Check(s.PC, want)
+	}
 	v.Result = res
 	if res == Sat {
 		v.Model = map[string]string{}
-		for _, r := range s.Syms {
+		for _, r := range syms {
 			switch r.Kind {
 			case "bytes":
 				bs := make([]byte, len(r.Terms))
@@ -888,7 +905,7 @@ func (ex *Exec) doPanic(s *State, msg string) {
 
 func (ex *Exec) jump(s *State, fr *Frame, to *ssa.BasicBlock) error {
 	fr.Visits[to.Index]++
-	if s.Unchecked > 0 && fr.Visits[to.Index]%128 == 0 {
+	if ex.LazyAll && s.Unchecked > 0 && fr.Visits[to.Index]%128 == 0 {
 		// a lazily explored path that keeps looping: make sure it is feasible
 		if ex.checkSat(s) == Unsat {
 			s.Status = Infeasible
